@@ -606,3 +606,8 @@ HARNESSES.append(Harness('string_value', string_value,
                          thorough=[dict(Q, n=2), dict(Q, n=3, _budget=2400)]))
 HARNESSES.append(Harness('cli_main', cli_main, quick=[Q]))
 HARNESSES.append(Harness('png_args', png_args, quick=[Q]))
+# what ran before on the same Lua object (shared with C06): an abandoned
+# iteration, another writer ... must not change what the minifier writes
+from props import C06 as _C06
+HARNESSES.append(Harness('after_other_writer', _C06.after_other_writer,
+                         quick=[{'_budget': 300}]))
